@@ -193,7 +193,10 @@ CHECKS = {
              "changes nothing; no API call takes the track count past a non-zero limit; named replace does not grow the list; "
              "removed/muted tracks emit nothing.",
         design="DESIGN.md §3 C06",
-        note=SCHED_NOTE + " len<=max_tracks is proved per API call and as an invariant over whole histories (any calls, ticks, callbacks, faults) that do not change the limit itself.",
+        note=SCHED_NOTE + " len<=max_tracks is proved per API call and as an invariant over whole histories (any calls, ticks, callbacks, faults) that do not change the limit itself. "
+             "'Performs exactly min(count, length) events' is proved for the whole life of a track inside a timeline of any number of tracks "
+             "(events_performed_in_the_timeline, leaves_with_quota_performed: an invariant carried along the track's own trajectory of "
+             "C07.run_is_merge; tracks without callbacks, fault-free world); with callbacks / faults it is decided by the limit oracle and the correspondence.",
         technique="Lean 4 decision-logic / invariant theorems + differential correspondence"),
     "C07": dict(
         text="Theorems: the calls of one tick are all due note-offs of all tracks (track order) followed by the event phase in "
